@@ -25,6 +25,9 @@ RESOLVE = ("settle", "fail", "malformed")
 
 # error classes that are a property failure between two honest peers
 HARD_CLASSES = ("sig_invalid", "data_loss", "commit_sync")
+# outcomes of validateCommitmentSanity: a constraint said no; never a property failure
+CONSTRAINT_CLASSES = ("below_reserve", "max_htlcs", "max_pending", "below_min", "invalid_amt",
+                      "fee_floor", "no_window")
 
 
 def peer(p):
@@ -500,19 +503,21 @@ def no_errors(row):
     fails = []
     for i, st in enumerate(row["steps"]):
         ex = st.get("extra") or {}
-        if _hard(st["res"]) or st["res"] in ("reload_failed", "sync_error", "sync_failed"):
+        if _hard(st["res"]) or st["res"] in ("reload_failed", "sync_failed"):
             fails.append("step %d %s: %s" % (i, st["op"], st["res"]))
         for d in ex.get("delivered") or []:
             if d[2] != "ok":
                 fails.append("step %d cut: delivering %s to %s: %s" % (i, d[1], d[0], d[2]))
         for k in ("err_a", "err_b", "err"):
-            if ex.get(k):
+            # ProcessChanSyncMsg may sign (owed revocation + owed commitment); a
+            # constraint refusal there is the same outcome as a refused plain sign.
+            if ex.get(k) and ex[k] not in CONSTRAINT_CLASSES:
                 fails.append("step %d %s: %s=%s" % (i, st["op"], k, ex[k]))
         for p in PARTIES:
             if isinstance(st.get(p), dict) and "dump_failed" in st[p]:
                 fails.append("step %d: dump of %s failed: %s" % (i, p, st[p]["dump_failed"]))
     ab = row.get("aborted")
-    if ab and (_hard(ab) or ab.startswith(("sync_error", "chansyncmsg", "dump", "revoke:",
+    if ab and (_hard(ab) or ab.startswith(("chansyncmsg", "dump", "revoke:",
                                             "deliver_rev", "deliver_sig", "cut_deliver_sig",
                                             "cut_deliver_rev"))):
         fails.append("case aborted: %s" % ab)
@@ -525,29 +530,13 @@ def known_signature(row):
     'fee-updates-restored-out-of-order': restoreStateLogs re-inserts the pending
     CommitDiff's updates before the older remoteUnsignedLocalUpdates, evaluateHTLCView takes
     the last FeeUpdate in LIST order (corpus/chan/fee_restore_order.json).
-    'fee-update-lost-on-restart-before-first-revoke': ChannelStateDB.AdvanceCommitChainTail
-    returns before persisting remoteUnsignedLocalUpdates when unsignedAckedUpdatesKey does
-    not exist yet (the node never revoked): an update_fee of a fresh channel's opener is
-    forgotten by a restart between the peer's revoke_and_ack and commit_sig
-    (corpus/chan/fresh_fee_restart.json)."""
-    init = row["cfg"].get("initiator", "a")
-    cut_seen = False
-    unsorted = False
+    (The former 'fee-update-lost-on-restart-before-first-revoke' defect,
+    corpus/chan/fresh_fee_restart.json, is repaired in /repo: it is a regression corpus
+    now and is deliberately NOT recognised here.)"""
     for i, st in enumerate(row["steps"]):
-        if st["op"][0] == "cut":
-            cut_seen = True
-        if not unsorted:
-            for _w, _p, d in _step_dumps(i, st):
-                if d.get("own_fee_sorted") is False or d.get("peer_fee_sorted") is False:
-                    unsorted = True
-        if unsorted and _step_fails_sig(st):
-            return "fee-updates-restored-out-of-order"
-        if cut_seen and _step_fails_sig(st) and _has_dumps(st):
-            d = st[init]
-            if d["ltail"]["h"] == 0 and d["rtail"]["fee_per_kw"] != d["ltail"]["fee_per_kw"]:
-                return "fee-update-lost-on-restart-before-first-revoke"
-    if unsorted:
-        return "fee-updates-restored-out-of-order"
+        for _w, _p, d in _step_dumps(i, st):
+            if d.get("own_fee_sorted") is False or d.get("peer_fee_sorted") is False:
+                return "fee-updates-restored-out-of-order"
     return None
 
 
